@@ -1,6 +1,8 @@
 // Engine `sandbox` (C10): drives the real sandbox.XMCache (kernel/contract/sandbox) with
-// programs of Get / Put / Del / Select(bounds, early stop) over two kinds of backing reader,
-// then re-runs every program over sandbox.XMReaderFromRWSet(rwset).
+// programs of Get / Put / Del / Select(bounds, early stop) / Transfer / AddEvent over two kinds of
+// backing reader and a deterministic first-run utxo reader, calls Flush, then re-runs every program
+// the way State.verifyTxRWSets does: over sandbox.XMReaderFromRWSet(rwset) and
+// sandbox.NewUTXOReaderFromInput(the inputs parsed out of the write set).
 //
 // op lines (also the input of the Lean driver `xvdriver sandbox`):
 //
@@ -15,26 +17,45 @@
 //	sel <b> <lo> <hi> <n>           Select(bucket, lo, hi) then n calls of Next(), Close
 //	                                -> [k:val ...] r=<entries in the read set afterwards> | err | panic
 //	                                lo/hi: key number or - (nil)
-//	rwset                           -> R b:k:ver:val ... W b:k:val ...   (sorted)
-//	rerun                           run the ops of this case again on a fresh cache over
-//	                                XMReaderFromRWSet(RWSet()); -> same | diff
+//	utxo <addr>:<amt>,<amt>,... ... the unspent outputs the first-run utxo reader selects from, in selection
+//	                                order (references are numbered 0,1,.. along the line); only before the
+//	                                first call of the case -> ok
+//	xf <from> <to> <amount>         XMCache.Transfer -> ok | err
+//	ev <name> <body>                XMCache.AddEvent -> ok
+//	flush                           XMCache.Flush -> ok | err; ends the execution: every later call line
+//	                                (get put del sel xf ev utxo flush) is answered bad-op
+//	rwset                           -> R b:k:ver:val ... W b:k:val ...   (R sorted, W in the order of
+//	                                RWSet().WSet); after flush the W part starts with the entries Flush
+//	                                wrote: 0:I:ref/from/amt,... 0:O:to/amt,... 0:E:name/body,...
+//	utxorw                          UTXORWSet() -> I ref/from/amt ... O to/amt ...
+//	rerun                           run the calls of this case again on a fresh cache over
+//	                                XMReaderFromRWSet(RWSet()) and NewUTXOReaderFromInput(recorded inputs)
+//	                                (+ Flush if the case flushed); -> same | diff
 //
 // buckets: 0 = "$transient", i = "b<i>";  keys: "k<i>" (one digit, so byte order = numeric order);
 // values: 0 = "\x00" (delete mark), 1 = empty, n>=2 = "v<n>"; versions: 0 = empty version
 // (RefTxid nil, RefOffset 0), n>=1 = RefTxid "t<n>", RefOffset n%4.
+// addresses: "a<i>"; output reference i = RefTxid "u<i>", RefOffset i%3; event: contract "c",
+// name "n<name>", body "b<body>".
 package main
 
 import (
 	"bytes"
+	"errors"
 	"fmt"
+	"math/big"
+	"os"
 	"path/filepath"
 	"sort"
 	"strconv"
 	"strings"
 
+	"github.com/xuperchain/xupercore/bcs/ledger/xledger/state/xmodel"
+	lpb "github.com/xuperchain/xupercore/bcs/ledger/xledger/xldgpb"
 	"github.com/xuperchain/xupercore/kernel/contract"
 	"github.com/xuperchain/xupercore/kernel/contract/sandbox"
 	"github.com/xuperchain/xupercore/kernel/ledger"
+	"github.com/xuperchain/xupercore/protos"
 	"xv/xvlib"
 )
 
@@ -181,6 +202,192 @@ func buildReader(kind byte, es []entry) ledger.XMReader {
 	return x
 }
 
+// ---------------------------------------------------------------- the token side: ids, first-run utxo reader
+
+var (
+	keyUtxoIn  = []byte("ContractUtxo.Inputs")
+	keyUtxoOut = []byte("ContractUtxo.Outputs")
+	keyEvent   = []byte("contractEvent")
+)
+
+func addrName(a int) string { return "a" + strconv.Itoa(a) }
+
+func addrID(b []byte) int {
+	if len(b) < 2 || b[0] != 'a' {
+		return -1
+	}
+	n, err := strconv.Atoi(string(b[1:]))
+	if err != nil {
+		return -1
+	}
+	return n
+}
+
+func amtID(b []byte) int64 {
+	v := new(big.Int).SetBytes(b)
+	if !v.IsInt64() {
+		return -1
+	}
+	return v.Int64()
+}
+
+func refID(in *protos.TxInput) int {
+	t := in.GetRefTxid()
+	if len(t) < 2 || t[0] != 'u' {
+		return -1
+	}
+	n, err := strconv.Atoi(string(t[1:]))
+	if err != nil || int32(n%3) != in.GetRefOffset() {
+		return -1
+	}
+	return n
+}
+
+func inStr(in *protos.TxInput) string {
+	return fmt.Sprintf("%d/%d/%d", refID(in), addrID(in.GetFromAddr()), amtID(in.GetAmount()))
+}
+
+func outStr(o *protos.TxOutput) string {
+	return fmt.Sprintf("%d/%d", addrID(o.GetToAddr()), amtID(o.GetAmount()))
+}
+
+func evStr(e *protos.ContractEvent) string {
+	n, b := -1, -1
+	if strings.HasPrefix(e.GetName(), "n") {
+		if v, err := strconv.Atoi(e.GetName()[1:]); err == nil {
+			n = v
+		}
+	}
+	if len(e.GetBody()) > 0 && e.GetBody()[0] == 'b' {
+		if v, err := strconv.Atoi(string(e.GetBody()[1:])); err == nil {
+			b = v
+		}
+	}
+	if e.GetContract() != "c" {
+		n = -1
+	}
+	return fmt.Sprintf("%d/%d", n, b)
+}
+
+func insStr(l []*protos.TxInput) string {
+	var p []string
+	for _, x := range l {
+		p = append(p, inStr(x))
+	}
+	return strings.Join(p, ",")
+}
+
+func outsStr(l []*protos.TxOutput) string {
+	var p []string
+	for _, x := range l {
+		p = append(p, outStr(x))
+	}
+	return strings.Join(p, ",")
+}
+
+func evsStr(l []*protos.ContractEvent) string {
+	var p []string
+	for _, x := range l {
+		p = append(p, evStr(x))
+	}
+	return strings.Join(p, ",")
+}
+
+type utxoItem struct {
+	ref, owner int
+	amt        int64
+	taken      bool
+}
+
+type selCall struct {
+	from   string
+	amount int64
+	ok     bool
+	handed []*utxoItem
+	total  int64
+}
+
+// firstReader is the utxo reader of the first run: what UtxoVM.SelectUtxos guarantees, made
+// deterministic. The unspent outputs stand in a fixed order; a selection takes the outputs of
+// `from` in that order until their sum reaches the amount and never hands an output out again
+// (UtxoVM locks it); if the outputs of `from` do not cover the amount nothing is taken. It logs
+// every call: the log is the ground truth of the token oracle.
+type firstReader struct {
+	items []*utxoItem
+	calls []*selCall
+}
+
+func (f *firstReader) SelectUtxo(from string, amount *big.Int, lock bool, excludeUnconfirmed bool) ([]*protos.TxInput, [][]byte, *big.Int, error) {
+	call := &selCall{from: from, amount: amount.Int64()}
+	f.calls = append(f.calls, call)
+	if amount.Sign() == 0 {
+		call.ok = true
+		return nil, nil, big.NewInt(0), nil
+	}
+	sum := new(big.Int)
+	var picked []*utxoItem
+	enough := false
+	for _, it := range f.items {
+		if it.taken || addrName(it.owner) != from {
+			continue
+		}
+		picked = append(picked, it)
+		sum.Add(sum, big.NewInt(it.amt))
+		if sum.Cmp(amount) >= 0 {
+			enough = true
+			break
+		}
+	}
+	if !enough {
+		return nil, nil, nil, errors.New("no enough utxo")
+	}
+	var ins []*protos.TxInput
+	for _, it := range picked {
+		it.taken = true
+		ins = append(ins, &protos.TxInput{RefTxid: []byte("u" + strconv.Itoa(it.ref)), RefOffset: int32(it.ref % 3),
+			FromAddr: []byte(from), Amount: big.NewInt(it.amt).Bytes()})
+	}
+	call.ok, call.handed, call.total = true, picked, sum.Int64()
+	return ins, nil, sum, nil
+}
+
+// natOf parses a decimal natural number (digits only)
+func natOf(s string) (int, bool) {
+	if s == "" || len(s) > 9 {
+		return 0, false
+	}
+	for _, c := range s {
+		if c < '0' || c > '9' {
+			return 0, false
+		}
+	}
+	n, _ := strconv.Atoi(s)
+	return n, true
+}
+
+// parseUtxo parses the tokens of a `utxo` line
+func parseUtxo(toks []string) ([]*utxoItem, bool) {
+	var items []*utxoItem
+	for _, t := range toks {
+		p := strings.Split(t, ":")
+		if len(p) != 2 {
+			return nil, false
+		}
+		a, ok := natOf(p[0])
+		if !ok {
+			return nil, false
+		}
+		for _, x := range strings.Split(p[1], ",") {
+			v, ok := natOf(x)
+			if !ok {
+				return nil, false
+			}
+			items = append(items, &utxoItem{ref: len(items), owner: a, amt: int64(v)})
+		}
+	}
+	return items, true
+}
+
 // ---------------------------------------------------------------- executor on the real code
 
 type bk struct{ b, k int }
@@ -276,8 +483,99 @@ func execOp(c *sandbox.XMCache, w []string) (ans string, sr selRes) {
 			return sr.status, sr
 		}
 		return sr.list() + " r=" + strconv.Itoa(rsetSize(c)), sr
+	case "xf":
+		from, _ := strconv.Atoi(w[1])
+		to, _ := strconv.Atoi(w[2])
+		amt, _ := strconv.Atoi(w[3])
+		if err := c.Transfer(addrName(from), addrName(to), big.NewInt(int64(amt))); err != nil {
+			return "err", sr
+		}
+		return "ok", sr
+	case "ev":
+		c.AddEvent(&protos.ContractEvent{Contract: "c", Name: "n" + w[1], Body: []byte("b" + w[2])})
+		return "ok", sr
 	}
 	return "bad-op", sr
+}
+
+// isCall: the op lines that are calls of the contract (or set up the case); refused after flush
+func isCall(op string) bool {
+	switch op {
+	case "get", "put", "del", "sel", "xf", "ev", "utxo", "flush":
+		return true
+	}
+	return false
+}
+
+// wellFormed: is the line a call with operands the model driver parses too
+func wellFormed(w []string) bool {
+	nat := func(ix ...int) bool {
+		for _, i := range ix {
+			if _, ok := natOf(w[i]); !ok {
+				return false
+			}
+		}
+		return true
+	}
+	switch {
+	case w[0] == "xf" && len(w) == 4:
+		return nat(1, 2, 3)
+	case w[0] == "ev" && len(w) == 3:
+		return nat(1, 2)
+	}
+	return false
+}
+
+// reservedKey: 1,2,3 for the three keys Flush writes into the transient bucket, else 0
+func reservedKey(bucket string, key []byte) int {
+	if bucket != sandbox.TransientBucket {
+		return 0
+	}
+	switch {
+	case bytes.Equal(key, keyUtxoIn):
+		return 1
+	case bytes.Equal(key, keyUtxoOut):
+		return 2
+	case bytes.Equal(key, keyEvent):
+		return 3
+	}
+	return 0
+}
+
+// reservedStr decodes an entry Flush wrote (the way the verifier parses it back)
+func reservedStr(kind int, value []byte) string {
+	switch kind {
+	case 1:
+		var l []*protos.TxInput
+		if err := xmodel.UnmsarshalMessages(value, &l); err != nil {
+			return "0:I:undecodable"
+		}
+		return "0:I:" + insStr(l)
+	case 2:
+		var l []*protos.TxOutput
+		if err := xmodel.UnmsarshalMessages(value, &l); err != nil {
+			return "0:O:undecodable"
+		}
+		return "0:O:" + outsStr(l)
+	}
+	var l []*protos.ContractEvent
+	if err := xmodel.UnmsarshalMessages(value, &l); err != nil {
+		return "0:E:undecodable"
+	}
+	return "0:E:" + evsStr(l)
+}
+
+func utxorwString(c *sandbox.XMCache) string {
+	u := c.UTXORWSet()
+	p := []string{"I"}
+	for _, x := range u.Rset {
+		p = append(p, inStr(x))
+	}
+	p = append(p, "O")
+	for _, x := range u.WSet {
+		p = append(p, outStr(x))
+	}
+	return strings.Join(p, " ")
 }
 
 func dumpRW(c *sandbox.XMCache) string {
@@ -292,7 +590,11 @@ func dumpRW(c *sandbox.XMCache) string {
 		b, k := bucketID(r.PureData.Bucket), keyID(r.PureData.Key)
 		rr = append(rr, row{b, k, fmt.Sprintf("%d:%d:%d:%d", b, k, verID(r), valID(r.PureData.Value))})
 	}
-	for _, p := range rw.WSet {
+	for _, p := range rw.WSet { // in the order of the write set (the order the transaction id is computed over)
+		if kind := reservedKey(p.Bucket, p.Key); kind != 0 {
+			wr = append(wr, row{0, -1, reservedStr(kind, p.Value)})
+			continue
+		}
 		b, k := bucketID(p.Bucket), keyID(p.Key)
 		wr = append(wr, row{b, k, fmt.Sprintf("%d:%d:%d", b, k, valID(p.Value))})
 	}
@@ -305,7 +607,6 @@ func dumpRW(c *sandbox.XMCache) string {
 		}
 	}
 	sort.SliceStable(rr, less(rr))
-	sort.SliceStable(wr, less(wr))
 	for _, r := range rr {
 		rs = append(rs, r.s)
 	}
@@ -332,20 +633,50 @@ func selList(ans string) string {
 
 type viol struct{ key, what string }
 
+// caseInfo: what kind of token traffic a case had (for the distribution in the stats)
+type caseInfo struct {
+	xfers, exact, change, short, zero int
+	exactThenMore                     bool // a transfer covered exactly, then another successful one of the same address
+	events                            int
+	flushed                           bool
+}
+
+// xferRec: one Transfer call of the first run as the oracle saw it
+type xferRec struct {
+	from, to int
+	amt      int64
+	ok       bool
+}
+
+type outRec struct {
+	to  int
+	amt int64
+}
+
+// checkChunk: the inputs a Transfer call appended to the utxo read set must belong to its `from`
+func chunkOwners(chunk []*protos.TxInput, from int) (int, bool) {
+	for _, in := range chunk {
+		if addrID(in.GetFromAddr()) != from {
+			return refID(in), false
+		}
+	}
+	return 0, true
+}
+
 // runCase executes the op lines of one case (first line is `reset`) on the real code and evaluates
 // the property oracle on what the real code returned. Returns the answers and the violations.
-func runCase(lines []string) (answers []string, viols []viol) {
+func runCase(lines []string) (answers []string, viols []viol, info caseInfo) {
 	add := func(key, f string, a ...interface{}) { viols = append(viols, viol{key, fmt.Sprintf(f, a...)}) }
 	w0 := strings.Fields(lines[0])
 	if len(w0) < 2 || w0[0] != "reset" || (w0[1] != "m" && w0[1] != "x") {
-		return []string{"bad-op"}, nil
+		return []string{"bad-op"}, nil, info
 	}
 	kind := w0[1][0]
 	var es []entry
 	for _, t := range w0[2:] {
 		p := strings.Split(t, ":")
 		if len(p) != 4 {
-			return []string{"bad-op"}, nil
+			return []string{"bad-op"}, nil, info
 		}
 		var e entry
 		e.b, _ = strconv.Atoi(p[0])
@@ -376,18 +707,200 @@ func runCase(lines []string) (answers []string, viols []viol) {
 	}
 	mustRead := map[bk]string{} // keys the read set has to hold, with the reason
 
-	c := sandbox.NewXModelCache(&contract.SandboxConfig{XMReader: buildReader(kind, es)})
+	fr := &firstReader{}
+	c := sandbox.NewXModelCache(&contract.SandboxConfig{XMReader: buildReader(kind, es), UTXOReader: fr})
 	answers = append(answers, "ok")
 	var prog [][]string
-	for _, line := range lines[1:] {
+	var progIdx []int // index in lines of every executed call
+	// shadow of the token side, fed by the log of the first-run reader only
+	var (
+		expIn    []string // ref/from/amt of every input handed out to a successful Transfer, in order
+		expOut   []outRec
+		expEv    []string
+		xfs      []xferRec
+		flushed  bool
+		lastFrom = map[int]bool{} // addresses whose latest successful transfer was covered exactly
+	)
+	checkUtxoCaches := func(where string) {
+		u := c.UTXORWSet()
+		var gotIn, wantOut, gotOut []string
+		for _, x := range u.Rset {
+			gotIn = append(gotIn, inStr(x))
+		}
+		for _, x := range u.WSet {
+			gotOut = append(gotOut, outStr(x))
+		}
+		for _, o := range expOut {
+			wantOut = append(wantOut, fmt.Sprintf("%d/%d", o.to, o.amt))
+		}
+		if strings.Join(gotIn, " ") != strings.Join(expIn, " ") {
+			add("utxo-inputs-wrong", "%s: UTXORWSet().Rset is [%s]; the first-run reader handed out [%s] to the successful transfers", where, strings.Join(gotIn, " "), strings.Join(expIn, " "))
+		}
+		if strings.Join(gotOut, " ") != strings.Join(wantOut, " ") {
+			add("utxo-outputs-wrong", "%s: UTXORWSet().WSet is [%s]; the transfers ask for [%s] (amount to the receiver, then the change if the inputs are worth more)", where, strings.Join(gotOut, " "), strings.Join(wantOut, " "))
+		}
+	}
+	checkRecorded := func(where string, u *contract.UTXORWSet) {
+		var sin, sout int64
+		seen := map[int]bool{}
+		for _, x := range u.Rset {
+			sin += amtID(x.GetAmount())
+			if seen[refID(x)] {
+				add("input-recorded-twice", "%s: output %d is recorded twice as an input: [%s]", where, refID(x), insStr(u.Rset))
+			}
+			seen[refID(x)] = true
+		}
+		for _, x := range u.WSet {
+			sout += amtID(x.GetAmount())
+		}
+		if sin != sout {
+			add("utxo-not-conserved", "%s: the recorded inputs [%s] are worth %d, the recorded outputs [%s] are worth %d", where, insStr(u.Rset), sin, outsStr(u.WSet), sout)
+		}
+	}
+	for li, line := range lines[1:] {
 		w := strings.Fields(line)
 		if len(w) == 0 {
 			answers = append(answers, "bad-op")
 			continue
 		}
+		if flushed && isCall(w[0]) {
+			answers = append(answers, "bad-op") // the execution ended with Flush
+			continue
+		}
 		switch {
+		case w[0] == "utxo":
+			items, ok := parseUtxo(w[1:])
+			if !ok || len(prog) > 0 {
+				answers = append(answers, "bad-op")
+				break
+			}
+			fr = &firstReader{items: items}
+			c = sandbox.NewXModelCache(&contract.SandboxConfig{XMReader: buildReader(kind, es), UTXOReader: fr})
+			answers = append(answers, "ok")
+		case wellFormed(w) && w[0] == "xf":
+			prog = append(prog, w)
+			progIdx = append(progIdx, li+1)
+			from, _ := strconv.Atoi(w[1])
+			to, _ := strconv.Atoi(w[2])
+			amt, _ := strconv.Atoi(w[3])
+			nCalls, nIn := len(fr.calls), len(c.UTXORWSet().Rset)
+			ans, _ := execOp(c, w)
+			answers = append(answers, ans)
+			info.xfers++
+			rec := xferRec{from: from, to: to, amt: int64(amt), ok: ans == "ok"}
+			xfs = append(xfs, rec)
+			calls := fr.calls[nCalls:]
+			switch {
+			case ans == "panic":
+				add("transfer-panic", "%s panicked", line)
+			case amt == 0:
+				info.zero++
+				if ans == "ok" {
+					add("transfer-zero-accepted", "%s was accepted although the amount is zero", line)
+				}
+			case len(calls) != 1 || calls[0].from != addrName(from) || calls[0].amount != int64(amt):
+				add("transfer-asks-wrong", "%s asked the utxo reader %d time(s), not once for (%s, %d)", line, len(calls), addrName(from), amt)
+			case calls[0].ok != (ans == "ok"):
+				add("transfer-result-wrong", "%s answered %s although the utxo reader answered ok=%v", line, ans, calls[0].ok)
+			}
+			if amt != 0 && len(calls) == 1 && calls[0].ok && ans == "ok" {
+				for _, it := range calls[0].handed {
+					expIn = append(expIn, fmt.Sprintf("%d/%d/%d", it.ref, it.owner, it.amt))
+				}
+				expOut = append(expOut, outRec{to, int64(amt)})
+				if lastFrom[from] {
+					info.exactThenMore = true
+				}
+				if calls[0].total > int64(amt) {
+					expOut = append(expOut, outRec{from, calls[0].total - int64(amt)})
+					info.change++
+					lastFrom[from] = false
+				} else {
+					info.exact++
+					lastFrom[from] = true
+				}
+			} else if amt != 0 && ans != "ok" {
+				info.short++
+			}
+			if rs := c.UTXORWSet().Rset; len(rs) >= nIn {
+				if ref, ok := chunkOwners(rs[nIn:], from); !ok {
+					add("input-of-other-address", "%s consumed output %d, which does not belong to %s: [%s]", line, ref, addrName(from), insStr(rs[nIn:]))
+				}
+			}
+			checkUtxoCaches("after " + line)
+		case wellFormed(w) && w[0] == "ev":
+			prog = append(prog, w)
+			progIdx = append(progIdx, li+1)
+			ans, _ := execOp(c, w)
+			answers = append(answers, ans)
+			expEv = append(expEv, w[1]+"/"+w[2])
+			info.events++
+			if ans != "ok" {
+				add("event-"+ans, "%s answered %s", line, ans)
+			}
+		case w[0] == "flush" && len(w) == 1:
+			flushed, info.flushed = true, true
+			ans := "ok"
+			func() {
+				defer func() {
+					if r := recover(); r != nil {
+						ans = "panic"
+					}
+				}()
+				if err := c.Flush(); err != nil {
+					ans = "err"
+				}
+			}()
+			answers = append(answers, ans)
+			if ans != "ok" {
+				add("flush-"+ans, "Flush answered %s", ans)
+			}
+			checkUtxoCaches("at Flush")
+			checkRecorded("first run", c.UTXORWSet())
+			// the entries Flush has to leave in the transient bucket, in write-set order
+			u := c.UTXORWSet()
+			var want, got []string
+			if len(u.Rset) > 0 {
+				want = append(want, "0:I:"+insStr(u.Rset))
+			}
+			if len(u.WSet) > 0 {
+				want = append(want, "0:O:"+outsStr(u.WSet))
+			}
+			if len(expEv) > 0 {
+				want = append(want, "0:E:"+strings.Join(expEv, ","))
+			}
+			ws := c.RWSet().WSet
+			for i, p := range ws {
+				if kind := reservedKey(p.Bucket, p.Key); kind != 0 {
+					got = append(got, reservedStr(kind, p.Value))
+				}
+				if i > 0 && bytes.Compare(append([]byte(ws[i-1].Bucket+"/"), ws[i-1].Key...), append([]byte(p.Bucket+"/"), p.Key...)) >= 0 {
+					add("wset-order", "the write set is not in raw-key order at %s/%s", p.Bucket, p.Key)
+				}
+			}
+			if strings.Join(got, " ") != strings.Join(want, " ") {
+				key := "transient-entries-differ"
+				strip := func(l []string) string {
+					var r []string
+					for _, x := range l {
+						if !strings.HasPrefix(x, "0:E:") {
+							r = append(r, x)
+						}
+					}
+					return strings.Join(r, " ")
+				}
+				if strip(got) == strip(want) {
+					key = "events-differ"
+				}
+				add(key, "after Flush the transient bucket holds [%s]; the token caches and the events of the execution are [%s]", strings.Join(got, " "), strings.Join(want, " "))
+			}
+		case w[0] == "utxorw" && len(w) == 1:
+			answers = append(answers, utxorwString(c))
+			checkUtxoCaches("at utxorw")
+			checkRecorded("first run", c.UTXORWSet())
 		case w[0] == "get" && len(w) == 3, w[0] == "put" && len(w) == 4, w[0] == "del" && len(w) == 3, w[0] == "sel" && len(w) == 5:
 			prog = append(prog, w)
+			progIdx = append(progIdx, li+1)
 			ans, sr := execOp(c, w)
 			answers = append(answers, ans)
 			b, _ := strconv.Atoi(w[1])
@@ -538,6 +1051,9 @@ func runCase(lines []string) (answers []string, viols []viol) {
 			}
 			ws := map[bk]int{}
 			for _, p := range rw.WSet {
+				if flushed && reservedKey(p.Bucket, p.Key) != 0 {
+					continue // written by Flush; checked there
+				}
 				b, k := bucketID(p.Bucket), keyID(p.Key)
 				ws[bk{b, k}] = valID(p.Value)
 				if _, ok := pend[bk{b, k}]; !ok {
@@ -554,41 +1070,96 @@ func runCase(lines []string) (answers []string, viols []viol) {
 				}
 			}
 		case w[0] == "rerun" && len(w) == 1:
-			c2 := sandbox.NewXModelCache(&contract.SandboxConfig{XMReader: sandbox.XMReaderFromRWSet(c.RWSet())})
+			// what State.verifyTxRWSets does with a transaction carrying this read/write set: the reader is built
+			// from the read set, the utxo reader from the inputs parsed out of the transient bucket of the write
+			// set, the contract calls run again, Flush, and the write sets are compared with xmodel.Equal
+			rw := c.RWSet()
+			first := c.UTXORWSet()
+			utxoIn := first.Rset
+			if flushed {
+				tx := &lpb.Transaction{}
+				for _, p := range rw.WSet {
+					tx.TxOutputsExt = append(tx.TxOutputsExt, &protos.TxOutputExt{Bucket: p.Bucket, Key: p.Key, Value: p.Value})
+				}
+				parsedIn, err1 := xmodel.ParseContractUtxoInputs(tx)
+				parsedOut, err2 := xmodel.ParseContractUtxoOutputs(tx)
+				if err1 != nil || err2 != nil || insStr(parsedIn) != insStr(first.Rset) || outsStr(parsedOut) != outsStr(first.WSet) {
+					add("transient-entries-differ", "the token inputs/outputs parsed back out of the write set are [%s] / [%s] (errors %v, %v); the execution recorded [%s] / [%s]",
+						insStr(parsedIn), outsStr(parsedOut), err1, err2, insStr(first.Rset), outsStr(first.WSet))
+				}
+				utxoIn = parsedIn
+			}
+			c2 := sandbox.NewXModelCache(&contract.SandboxConfig{XMReader: sandbox.XMReaderFromRWSet(rw), UTXOReader: sandbox.NewUTXOReaderFromInput(utxoIn)})
 			res := "same"
-			idx := 0
-			for i, l := range lines[1:] {
+			for _, i := range progIdx {
+				l := lines[i]
 				pw := strings.Fields(l)
-				if len(pw) == 0 || pw[0] == "rwset" || pw[0] == "rerun" {
-					continue
-				}
-				if idx >= len(prog) {
-					break
-				}
-				idx++
+				nIn := len(c2.UTXORWSet().Rset)
 				a2, _ := execOp(c2, pw)
-				if selList(a2) != selList(answers[i+1]) {
+				if pw[0] == "xf" {
+					from, _ := strconv.Atoi(pw[1])
+					if rs := c2.UTXORWSet().Rset; len(rs) >= nIn {
+						if ref, ok := chunkOwners(rs[nIn:], from); !ok {
+							add("input-of-other-address", "in the re-run %q consumed output %d, which does not belong to %s: [%s]", l, ref, addrName(from), insStr(rs[nIn:]))
+						}
+					}
+				}
+				if selList(a2) != selList(answers[i]) {
 					res = "diff"
-					add("replay-diverges-"+pw[0], "over XMReaderFromRWSet %q answers %s, first run answered %s", l, selList(a2), selList(answers[i+1]))
+					if pw[0] == "xf" {
+						add("replay-transfer-differs", "over NewUTXOReaderFromInput([%s]) %q answers %s, first run answered %s (re-run so far recorded inputs [%s] outputs [%s])",
+							insStr(utxoIn), l, a2, answers[i], insStr(c2.UTXORWSet().Rset), outsStr(c2.UTXORWSet().WSet))
+					} else {
+						add("replay-diverges-"+pw[0], "over XMReaderFromRWSet %q answers %s, first run answered %s", l, selList(a2), selList(answers[i]))
+					}
 					break
 				}
 			}
-			if res == "same" && wsetString(c2) != wsetString(c) {
-				res = "diff"
-				add("replay-diverges-wset", "write set over XMReaderFromRWSet is %s, first run %s", wsetString(c2), wsetString(c))
+			if res == "same" {
+				if flushed {
+					if err := c2.Flush(); err != nil {
+						res = "diff"
+						add("replay-flush-error", "Flush of the re-run fails: %v", err)
+					}
+				}
+				again := c2.UTXORWSet()
+				checkRecorded("re-run", again)
+				if insStr(again.Rset) != insStr(first.Rset) || outsStr(again.WSet) != outsStr(first.WSet) {
+					res = "diff"
+					add("replay-utxo-differs", "the re-run over NewUTXOReaderFromInput records inputs [%s] outputs [%s]; the first run recorded inputs [%s] outputs [%s]",
+						insStr(again.Rset), outsStr(again.WSet), insStr(first.Rset), outsStr(first.WSet))
+				}
+				w1, w2 := wsetString(c), wsetString(c2)
+				if w1 != w2 || !xmodel.Equal(rw.WSet, c2.RWSet().WSet) {
+					res = "diff"
+					kvPart := func(ws string) string {
+						var r []string
+						for _, t := range strings.Fields(ws) {
+							if !strings.HasPrefix(t, "0:I:") && !strings.HasPrefix(t, "0:O:") && !strings.HasPrefix(t, "0:E:") {
+								r = append(r, t)
+							}
+						}
+						return strings.Join(r, " ")
+					}
+					if kvPart(w1) != kvPart(w2) || w1 == w2 {
+						add("replay-diverges-wset", "write set of the re-run is %s, first run %s (xmodel.Equal=%v)", w2, w1, xmodel.Equal(rw.WSet, c2.RWSet().WSet))
+					} else {
+						add("replay-transient-differs", "the transient entries of the re-run's write set are %s, first run %s", w2, w1)
+					}
+				}
 			}
 			answers = append(answers, res)
 		default:
 			answers = append(answers, "bad-op")
 		}
 	}
-	return answers, viols
+	return answers, viols, info
 }
 
 // shrink drops ops / backing entries while a violation with the same key persists.
 func shrink(lines []string, key string) []string {
 	has := func(ls []string) bool {
-		_, vs := runCase(ls)
+		_, vs, _ := runCase(ls)
 		for _, v := range vs {
 			if v.key == key {
 				return true
@@ -613,6 +1184,40 @@ func shrink(lines []string, key string) []string {
 			if has(cand) {
 				cur, w, changed = cand, cw, true
 				i--
+			}
+		}
+		// the unspent outputs of the `utxo` line, one amount at a time
+		for li := 1; li < len(cur); li++ {
+			uw := strings.Fields(cur[li])
+			if len(uw) == 0 || uw[0] != "utxo" {
+				continue
+			}
+			for ti := 1; ti < len(uw); ti++ {
+				p := strings.SplitN(uw[ti], ":", 2)
+				if len(p) != 2 {
+					continue
+				}
+				amts := strings.Split(p[1], ",")
+				for ai := 0; ai < len(amts); ai++ {
+					na := append(append([]string{}, amts[:ai]...), amts[ai+1:]...)
+					nw := append([]string{}, uw...)
+					if len(na) == 0 {
+						nw = append(nw[:ti], nw[ti+1:]...)
+					} else {
+						nw[ti] = p[0] + ":" + strings.Join(na, ",")
+					}
+					cand := append([]string{}, cur...)
+					cand[li] = strings.Join(nw, " ")
+					if has(cand) {
+						cur, uw, changed = cand, nw, true
+						if len(na) == 0 {
+							ti--
+							break
+						}
+						amts = na
+						ai--
+					}
+				}
 			}
 		}
 	}
@@ -730,13 +1335,131 @@ func exAlphabet(small bool) []string {
 	return append(a, sels...)
 }
 
+// randTokenCase: backing state + unspent outputs + a program mixing transfers, events and key ops
+func randTokenCase(r *xvlib.Rng) []string {
+	nKeys := 2 + r.Intn(4)
+	kind, es := randWorld(r, nKeys)
+	lines := []string{strings.TrimSpace("reset " + string(kind) + " " + entriesString(es))}
+	nAddr := 1 + r.Intn(3)
+	type outp struct {
+		owner, amt int
+		taken      bool
+	}
+	var outs []*outp
+	var toks []string
+	amtChoices := []int{0, 1, 1, 1, 2, 2, 2, 3, 3, 5}
+	for t, nt := 0, r.Intn(5); t < nt; t++ {
+		a := 1 + r.Intn(nAddr)
+		var p []string
+		for j, nj := 0, 1+r.Intn(3); j < nj; j++ {
+			v := amtChoices[r.Intn(len(amtChoices))]
+			outs = append(outs, &outp{owner: a, amt: v})
+			p = append(p, strconv.Itoa(v))
+		}
+		toks = append(toks, fmt.Sprintf("%d:%s", a, strings.Join(p, ",")))
+	}
+	if len(toks) > 0 {
+		lines = append(lines, "utxo "+strings.Join(toks, " "))
+	}
+	nx := []int{0, 1, 2, 2, 2, 3, 3, 4}[r.Intn(8)]
+	nEv := []int{0, 0, 1, 2}[r.Intn(4)]
+	kvOps := randProgram(r, nKeys, 8)
+	if r.Chance(1, 4) {
+		kvOps = nil
+	}
+	// interleave: kinds 0 = key op, 1 = transfer, 2 = event
+	var kinds []int
+	for range kvOps {
+		kinds = append(kinds, 0)
+	}
+	for i := 0; i < nx; i++ {
+		kinds = append(kinds, 1)
+	}
+	for i := 0; i < nEv; i++ {
+		kinds = append(kinds, 2)
+	}
+	for i := len(kinds) - 1; i > 0; i-- {
+		j := r.Intn(i + 1)
+		kinds[i], kinds[j] = kinds[j], kinds[i]
+	}
+	hot := 1 + r.Intn(nAddr)
+	ki := 0
+	for _, k := range kinds {
+		switch k {
+		case 0:
+			lines = append(lines, kvOps[ki])
+			ki++
+		case 2:
+			lines = append(lines, fmt.Sprintf("ev %d %d", r.Intn(3), r.Intn(4)))
+		case 1:
+			from := hot
+			if r.Chance(1, 4) {
+				from = 1 + r.Intn(nAddr)
+			}
+			to := 9
+			if r.Chance(1, 3) {
+				to = 1 + r.Intn(nAddr) // also to oneself
+			}
+			var mine []*outp
+			total := 0
+			for _, o := range outs {
+				if !o.taken && o.owner == from {
+					mine = append(mine, o)
+					total += o.amt
+				}
+			}
+			amt := 0
+			switch c := r.Intn(12); {
+			case c < 6 && len(mine) > 0: // an exact prefix sum
+				n := 1 + r.Intn(len(mine))
+				for _, o := range mine[:n] {
+					amt += o.amt
+				}
+			case c < 8 && len(mine) > 0: // one short of / one past a prefix sum
+				n := 1 + r.Intn(len(mine))
+				for _, o := range mine[:n] {
+					amt += o.amt
+				}
+				if c == 6 && amt > 1 {
+					amt--
+				} else {
+					amt++
+				}
+			case c == 8:
+				amt = 0
+			case c == 9:
+				amt = total + 1 + r.Intn(3)
+			default:
+				amt = 1 + r.Intn(6)
+			}
+			lines = append(lines, fmt.Sprintf("xf %d %d %d", from, to, amt))
+			// what a selection in order takes (to keep `mine` right for the next transfer)
+			if amt > 0 && amt <= total {
+				sum := 0
+				for _, o := range mine {
+					o.taken = true
+					sum += o.amt
+					if sum >= amt {
+						break
+					}
+				}
+			}
+		}
+	}
+	return lines
+}
+
 func main() {
 	args := xvlib.ParseArgs()
 	out := xvlib.NewOut(args.Out)
 	defer out.Close()
+	// XMCache.flushUTXORWSet prints every token output to stdout; the harness reports through files only
+	if devnull, err := os.OpenFile(os.DevNull, os.O_WRONLY, 0); err == nil {
+		os.Stdout = devnull
+	}
 	reported := map[string]int{}
 	runAndEmit := func(lines []string) {
-		answers, viols := runCase(lines)
+		answers, viols, info := runCase(lines)
 		for i, l := range lines {
 			a := "bad-op"
 			if i < len(answers) {
@@ -753,7 +1476,10 @@ func main() {
 			if w[0] == "sel" || w[0] == "get" {
 				nontrivial = true
 			}
-			if w[0] != "reset" && w[0] != "rwset" && w[0] != "rerun" && i < len(answers) {
+			if w[0] == "xf" {
+				nontrivial = true
+			}
+			if w[0] != "reset" && w[0] != "rwset" && w[0] != "rerun" && w[0] != "utxo" && w[0] != "utxorw" && i < len(answers) {
 				a := answers[i]
 				if w[0] == "sel" && strings.HasPrefix(a, "[") {
 					n := 0
@@ -771,6 +1497,28 @@ func main() {
 			}
 		}
 		out.Case(strings.Join(lines, ";"), nontrivial)
+		if info.xfers > 0 || info.events > 0 {
+			out.Count("token-case")
+			cnt := func(name string, n int) {
+				if n > 0 {
+					out.Count("token-case:" + name)
+				}
+			}
+			cnt("exact-cover", info.exact)
+			cnt("change", info.change)
+			cnt("failed-transfer", info.short)
+			cnt("zero-amount", info.zero)
+			cnt("event", info.events)
+			if info.xfers >= 2 {
+				out.Count("token-case:>=2-transfers")
+			}
+			if info.exactThenMore {
+				out.Count("token-case:exact-cover-then-another-transfer-of-the-same-address")
+			}
+			if info.exact > 0 && info.short > 0 {
+				out.Count("token-case:exact-cover-and-failed-transfer")
+			}
+		}
 		seen := map[string]bool{}
 		for _, v := range viols {
 			if seen[v.key] {
@@ -783,7 +1531,7 @@ func main() {
 			}
 			reported[v.key]++
 			min := shrink(lines, v.key)
-			ma, mv := runCase(min)
+			ma, mv, _ := runCase(min)
 			what := v.what
 			for _, x := range mv {
 				if x.key == v.key {
@@ -858,10 +1606,90 @@ func main() {
 		lines = append(lines, "rwset", "rerun")
 		runAndEmit(lines)
 		if i < 3 {
-			a, _ := runCase(lines)
+			a, _, _ := runCase(lines)
 			out.Sample(map[string]interface{}{"ops": lines, "impl": a})
 		}
 	}
+	// 3. the token side, exhaustively over small universes: every list of ≤ 3 unspent outputs worth 0..3 of one
+	// address x every sequence of transfers with amounts 0..4 (so every way a prefix covers an amount exactly,
+	// with change, or not at all is hit, also with zero-valued outputs), and every interleaving of outputs of two
+	// addresses worth 1..2 x every sequence of two transfers from either address
+	tokEnd := []string{"flush", "rwset", "utxorw", "rerun"}
+	xfLen := 2
+	if thorough {
+		xfLen = 3
+	}
+	tokEx := 0
+	var vec func(cur []int, max, bound int, f func([]int))
+	vec = func(cur []int, max, bound int, f func([]int)) {
+		f(cur)
+		if len(cur) == max {
+			return
+		}
+		for v := 0; v < bound; v++ {
+			vec(append(append([]int{}, cur...), v), max, bound, f)
+		}
+	}
+	var seqs func(cur []int, n, bound int, f func([]int))
+	seqs = func(cur []int, n, bound int, f func([]int)) {
+		if len(cur) == n {
+			f(cur)
+			return
+		}
+		for v := 0; v < bound; v++ {
+			seqs(append(append([]int{}, cur...), v), n, bound, f)
+		}
+	}
+	vec(nil, 3, 4, func(amts []int) {
+		for n := 1; n <= xfLen; n++ {
+			seqs(nil, n, 5, func(xs []int) {
+				lines := []string{"reset x 1:0:1:5"}
+				if len(amts) > 0 {
+					var p []string
+					for _, a := range amts {
+						p = append(p, strconv.Itoa(a))
+					}
+					lines = append(lines, "utxo 1:"+strings.Join(p, ","))
+				}
+				for i, x := range xs {
+					lines = append(lines, fmt.Sprintf("xf 1 %d %d", 2+i%2, x))
+				}
+				runAndEmit(append(lines, tokEnd...))
+				tokEx++
+			})
+		}
+	})
+	vec(nil, 3, 4, func(code []int) { // code: owner = 1 + c/2, amount = 1 + c%2
+		if len(code) == 0 {
+			return
+		}
+		seqs(nil, 2, 6, func(xs []int) { // from = 1 + x/3, amount = 1 + x%3
+			var p []string
+			for _, c := range code {
+				p = append(p, fmt.Sprintf("%d:%d", 1+c/2, 1+c%2))
+			}
+			lines := []string{"reset x", "utxo " + strings.Join(p, " ")}
+			for _, x := range xs {
+				lines = append(lines, fmt.Sprintf("xf %d 9 %d", 1+x/3, 1+x%3))
+			}
+			runAndEmit(append(lines, tokEnd...))
+			tokEx++
+		})
+	})
+	// 4. random programs mixing 0-4 transfers and events with key ops; the amounts are mostly chosen so that a
+	// prefix of the remaining outputs of the sender covers them exactly, or misses / exceeds that by one
+	tokCases := 3000
+	if thorough {
+		tokCases = 60000
+	}
+	for i := 0; i < tokCases; i++ {
+		lines := randTokenCase(rng)
+		runAndEmit(append(lines, tokEnd...))
+		if i < 2 {
+			a, _, _ := runCase(append(lines, tokEnd...))
+			out.Sample(map[string]interface{}{"ops": append(lines, tokEnd...), "impl": a})
+		}
+	}
 	out.Stats.Exhaustive = true
-	out.Stats.Rule = fmt.Sprintf("exhaustive: every program of ≤ %d ops over the full alphabet (get/put/del on 3 keys, 6 scans with different bounds and early stops) and of ≤ %d ops over the reduced alphabet (3 scans), on each of 3 backing states (MemXModel with live/deleted/empty-version entries; XModel-like with live/deleted/never-written keys; XModel-like with a second bucket): %d programs; random: %d programs of ≤ 15 ops over ≤ 8 keys and 4 buckets (incl. the transient bucket) on random backing states of both reader kinds; every program is followed by the RW-set dump and a re-run over XMReaderFromRWSet; a case is non-trivial if it reads; distinct by op lines", exLen, exLenSmall, exCount, randCases)
+	out.Stats.Rule = fmt.Sprintf("exhaustive: every program of ≤ %d ops over the full alphabet (get/put/del on 3 keys, 6 scans with different bounds and early stops) and of ≤ %d ops over the reduced alphabet (3 scans), on each of 3 backing states (MemXModel with live/deleted/empty-version entries; XModel-like with live/deleted/never-written keys; XModel-like with a second bucket): %d programs; random: %d programs of ≤ 15 ops over ≤ 8 keys and 4 buckets (incl. the transient bucket) on random backing states of both reader kinds; every program is followed by the RW-set dump and a re-run over XMReaderFromRWSet; token side exhaustive: every list of ≤ 3 unspent outputs worth 0..3 of one address x every sequence of ≤ %d transfers with amounts 0..4, and every list of ≤ 3 outputs worth 1..2 of two addresses x every pair of transfers (either sender, amounts 1..3): %d cases; token side random: %d programs of 0-4 transfers (amounts mostly an exact prefix sum of the sender's remaining outputs, or one off, or zero, or more than the sender owns; zero-valued outputs; up to 3 senders) and 0-2 events mixed with ≤ 8 key ops; every token case ends with Flush, the RW-set and UTXORWSet dumps and the re-run over XMReaderFromRWSet + NewUTXOReaderFromInput(inputs parsed from the write set) + Flush; a case is non-trivial if it reads or transfers; distinct by op lines", exLen, exLenSmall, exCount, randCases, xfLen, tokEx, tokCases)
 }
